@@ -30,8 +30,10 @@ CONSTANTS
  E2E = FALSE
  Aead = TRUE
  CheckIdent = TRUE
+ RelayOnce = TRUE
  AutoTimers = TRUE
 INVARIANT TypeOK
+INVARIANT PathAgreement
 INVARIANT ExitIntegrity
 INVARIANT ReturnIntegrity
 INVARIANT LayerDepth
